@@ -1354,3 +1354,348 @@ func init() {
 		c.Import(Registry["C02"].Run, "C02", []string{"R2"}, "viaC02")
 	})
 }
+
+// ================================================================================================================
+// Rules added after the THIRD round of independent seeded changes (DESIGN.md §14).
+func init() {
+	extend("C01", "Imported (round 3): async-commit recovery keeps a rolled-back verdict (C02.R5); a lost 1PC/async prewrite answer is undetermined (C03.R5).", func(c *core.Ctx) {
+		c.Import(Registry["C02"].Run, "C02", []string{"R5"}, "viaC02")
+		c.Import(Registry["C03"].Run, "C03", []string{"R5"}, "viaC03")
+	})
+	extend("C02", "Imported (round 3): the secondaries recorded in an async-commit primary are all keys that get a lock (C04.R1b); the mock store persists every marker it reports (C12.R1).", func(c *core.Ctx) {
+		c.Import(Registry["C04"].Run, "C04", []string{"R1b"}, "viaC04")
+		c.Import(Registry["C12"].Run, "C12", []string{"R1"}, "viaC12")
+	})
+	extend("C03", "(R9) the prewrite-cancelled flag is raised only by a failing prewrite/flush batch (the actions that own a cancel function). Imported (round 3): C02.R5.", func(c *core.Ctx) {
+		c.Import(Registry["C02"].Run, "C02", []string{"R5"}, "viaC02")
+		guardTable(c, "C03.R9", []gRow{
+			{Fn: [3]string{pkgTxn, "batchExecutor", "process"}, Target: "store:twoPhaseCommitter.prewriteCancelled", Facts: []string{"F:(call((*config/retry.Backoffer).Fork)#1[*]|nil == nil)"}, Min: 1,
+				Why: "prewriteCancelled tells a dropped prewrite RPC that its error is a consequence of the cancellation; raised by another action it suppresses the undetermined marking of a later prewrite"},
+		})
+	})
+	extend("C04", "(R7) when the provisional primary is abandoned after a lock-only-if-exists miss, the committer (and its ttl manager) is reset. Imported (round 3): status predicate definitions (C02.R4).", func(c *core.Ctx) {
+		c.Import(Registry["C02"].Run, "C02", []string{"R4"}, "viaC02")
+		a := rule(c, "C04.R7")
+		fn := a.fn(pkgTxn, "KVTxn", "unsetPrimaryKeyIfNeeded")
+		if fn == nil {
+			return
+		}
+		n := 0
+		for _, st := range storesToFieldNamed(fn, "twoPhaseCommitter.primaryKey") {
+			if !isNil(st.(*ssa.Store).Val) {
+				continue
+			}
+			n++
+			okk, w, hit := core.MustPassAfter(fn, st, isCallNamed("reset"), core.IsReturn, nil)
+			if okk {
+				a.ok(fname(fn)+" resets the committer with the abandoned primary", st, "")
+			} else {
+				a.viol(fname(fn)+" resets the committer with the abandoned primary", hit, "the provisional primary key is cleared but the committer is not reset: its ttl manager keeps heart-beating the abandoned key and the real primary chosen later is never kept alive: "+a.w(w))
+			}
+		}
+		a.checkAt(n == 1, fname(fn)+" clears the primary", a.fnPos(fn), "", "clearing site not found")
+	})
+	extend("C05", "(R2c) the scanner gives a key-less locked pair its key before the batch is installed (the bound check of Next needs it); (R2d) the async batch-get retry loop re-tests the region error of the request it just sent.", c05Round3)
+	extend("C06", "(R8) a pessimistic rollback is sent with max(forUpdateTS, maxLockedWithConflictTS); (R9) only prewrite-only keys are stripped before commit; (R10) every retry of an aggressive-locking stage hands its locked keys over for release.", c06Round3)
+	extend("C08", "(R11) Release marks the buffer dirty only when the OUTERMOST staging level is released and it wrote something — identically in both buffers.", func(c *core.Ctx) {
+		guardTable(c, "C08.R11", []gRow{
+			{Fn: [3]string{pkgART, "ART", "Release"}, Target: "store:ART.dirty", Facts: []string{"T:(const(1) == param#0)"}, Min: 1, Why: "writes of an inner level are still undoable by the outer level's cleanup: the buffer is not dirty yet"},
+			{Fn: [3]string{pkgRBT, "RBT", "Release"}, Target: "store:RBT.dirty", Facts: []string{"T:(const(1) == param#0)"}, Min: 1, Why: "same as the radix-tree buffer"},
+		})
+	})
+	extend("C09", "(R7) the batch locate loop continues with the remainder of ALL uncached ranges; (R8) an epoch-not-match answer invalidates the stale cached region unless one of the reported regions carries its very version; (R9) the ordered-index search looks further left only for an end-key lookup that hit a region starting at the key.", c09Round3)
+	extend("C10", "(R9) every read command has a start-ts case in Request.GetStartTS (what validateReadTS validates); (R10) the error of a back-off (budget exhausted / killed) is returned, never logged away; (R11) no function of the send path returns with a mutex still locked.", c10Round3)
+}
+
+func c05Round3(c *core.Ctx) {
+	p := c.P
+	a := rule(c, "C05.R2c")
+	getData := a.fn(pkgSnap, "Scanner", "getData")
+	bgRetry := a.fn(pkgSnap, "KVSnapshot", "retryBatchGetSingleRegionAfterAsyncAPI")
+	if getData == nil || bgRetry == nil {
+		return
+	}
+	// the key fill: a store KvPair.Key ← Lock.Key, in getData or in a private helper it calls
+	isFill := func(in ssa.Instruction) bool {
+		st, ok := in.(*ssa.Store)
+		if !ok {
+			return false
+		}
+		fa, ok := st.Addr.(*ssa.FieldAddr)
+		if !ok || core.FieldOfAddr(fa) == nil || fieldKey(fa.X.Type().String(), core.FieldOfAddr(fa).Name()) != "KvPair.Key" {
+			return false
+		}
+		return descHas(c, st.Val, "fld(Lock.Key,")
+	}
+	var fillSites []ssa.Instruction
+	core.Instrs(getData, func(in ssa.Instruction) {
+		if isFill(in) {
+			fillSites = append(fillSites, in)
+		}
+		if cl, ok := in.(*ssa.Call); ok {
+			if g := cl.Call.StaticCallee(); g != nil && g.Pkg == getData.Pkg && g.Object() != nil && !g.Object().Exported() && len(g.Blocks) > 0 {
+				has := false
+				core.Instrs(g, func(x ssa.Instruction) {
+					if isFill(x) {
+						has = true
+					}
+				})
+				if has {
+					fillSites = append(fillSites, in)
+				}
+			}
+		}
+	})
+	a.checkAt(len(fillSites) >= 1, fname(getData)+" fills the key of key-less locked pairs", a.fnPos(getData), "", "a scan pair that carries only a lock error keeps an empty key until Next: the bound check of Next compares the empty key (a reverse scan with a lower bound stops at the first leftover lock; a full batch ending in a locked pair restarts from the edge of the key space)")
+	for _, st := range storesToFieldNamed(getData, "Scanner.cache") {
+		for _, f := range fillSites {
+			q := &core.Q{Fn: getData}
+			after, _, _ := q.Reach(st, func(in ssa.Instruction) bool { return in == f })
+			before, _, _ := q.Reach(f, func(in ssa.Instruction) bool { return in == st })
+			a.check(before && !after, fname(getData)+" fills the keys before installing the batch", st, "", "the batch is installed before the keys of its locked pairs are filled in")
+		}
+	}
+	a2 := rule(c, "C05.R2d")
+	n := 0
+	for _, ci := range core.FindCalls(bgRetry, core.CallsMethodNamed("handleBatchGetRegionError", "")) {
+		n++
+		args := ci.Common().Args
+		d := strings.Join(p.Prov().Desc(args[len(args)-1]), "|")
+		a2.check(strings.Contains(d, "GetRegionError)#0"), fname(bgRetry)+" handles the region error of the request it just sent", ci, d, "the loop-carried region error is never updated from the retried request (e.g. shadowed by `:=`): a region error followed by a lock on the retry is never resolved and the batch get never returns: "+d)
+	}
+	a2.checkAt(n == 1, fname(bgRetry)+" region error handling", a2.fnPos(bgRetry), "", "handler call not found")
+}
+
+func c06Round3(c *core.Ctx) {
+	p := c.P
+	{
+		a := rule(c, "C06.R8")
+		if f := a.extField(kvrpcpb, "PessimisticRollbackRequest", "ForUpdateTs"); f != nil {
+			n := 0
+			for _, w := range prodWriters(c, f) {
+				if enclosing(w.Fn).Pkg != p.Pkg(pkgTxn) {
+					continue // the lock resolver rolls back a foreign lock with that lock's own for-update ts
+				}
+				n++
+				pv := p.Prov()
+				pv.InlinePure = true
+				d := strings.Join(pv.Desc(w.Val), "|")
+				a.check(strings.Contains(d, "twoPhaseCommitter.forUpdateTS") && strings.Contains(d, "maxLockedWithConflictTS"), "PessimisticRollbackRequest.ForUpdateTs ← max(forUpdateTS, maxLockedWithConflictTS) in "+fname(w.Fn), w.Instr, d, "the rollback's for-update ts ignores the conflict ts of locks taken with conflict: those locks carry a larger for_update_ts and survive the rollback: "+d)
+			}
+			a.checkAt(n >= 1, "PessimisticRollbackRequest.ForUpdateTs writers", "-", fmt.Sprint(n), "no writer found")
+		}
+	}
+	{
+		a := rule(c, "C06.R9")
+		fn := a.fn(pkgTxn, "twoPhaseCommitter", "stripNoNeedCommitKeys")
+		if fn != nil {
+			n := 0
+			core.Instrs(fn, func(in ssa.Instruction) {
+				ci, ok := in.(ssa.CallInstruction)
+				if !ok || ci.Common().StaticCallee() == nil {
+					return
+				}
+				cl := ci.Common().StaticCallee()
+				if cl.Signature.Recv() == nil || !strings.HasSuffix(cl.Signature.Recv().Type().String(), "kv.KeyFlags") {
+					return
+				}
+				n++
+				a.check(cl.Name() == "HasPrewriteOnly", fname(fn)+" strips exactly the prewrite-only keys", in, cl.Name(), "keys are removed from the commit set by "+cl.Name()+" instead of HasPrewriteOnly: keys that were prewritten with a lock are not committed and their locks survive a successful Commit")
+			})
+			a.checkAt(n == 1, fname(fn)+" flag test", a.fnPos(fn), "", "flag test not found")
+		}
+	}
+	{
+		a := rule(c, "C06.R10")
+		fn := a.fn(pkgTxn, "KVTxn", "RetryAggressiveLocking")
+		if fn != nil {
+			for _, spec := range []struct{ field, val, what string }{
+				{"aggressiveLockingContext.lastRetryUnnecessaryLocks", "fld(aggressiveLockingContext.currentLockedKeys,*", "hands the locked keys of the attempt over for release"},
+				{"aggressiveLockingContext.currentLockedKeys", "makemap", "starts the next attempt with an empty key set"},
+			} {
+				okk, w, hit := condMust(c, fn, nil, core.IsReturn, isStoreTo(c, spec.field, spec.val), []string{"T:(fld(KVTxn.aggressiveLockingContext,recv) == nil)", "F:call((*txnkv/transaction.KVTxn).IsInAggressiveLockingMode)*"})
+				if okk {
+					a.okAt(fname(fn)+" "+spec.what, a.fnPos(fn), "")
+				} else {
+					a.viol(fname(fn)+" "+spec.what, hit, "a retry can keep the previous attempt's key set as the current one: the same keys are released twice (lockedCnt is decremented twice and a later Rollback skips the pessimistic rollback): "+a.w(w))
+				}
+			}
+		}
+	}
+}
+
+func c09Round3(c *core.Ctx) {
+	{
+		a := rule(c, "C09.R7")
+		fn := a.fn(pkgLocate, "RegionCache", "BatchLocateKeyRanges")
+		if fn != nil {
+			n := 0
+			for _, f := range core.FuncsIn(fn) {
+				for _, ci := range core.FindCalls(f, core.CallsMethodNamed("rangesAfterKey", "")) {
+					n++
+					isSlice := false
+					for _, d := range c.P.Prov().Desc(ci.Common().Args[0]) {
+						if strings.HasPrefix(d, "slice(") {
+							isSlice = true
+						}
+					}
+					a.check(!isSlice, fname(f)+" continues with the remainder of all uncached ranges", ci, "", "the remainder is computed from the chunk that was just sent (a sub-slice) instead of from all uncached ranges: every range beyond the first chunk is dropped and the returned locations leave it uncovered")
+				}
+			}
+			a.checkAt(n >= 1, fname(fn)+" remainder computation", a.fnPos(fn), "", "rangesAfterKey call not found")
+		}
+	}
+	{
+		a := rule(c, "C09.R8")
+		fn := a.fn(pkgLocate, "RegionCache", "OnRegionEpochNotMatch")
+		if fn != nil {
+			inv := core.FindCalls(fn, core.CallsMethodNamed("invalidate", ""))
+			a.checkAt(len(inv) >= 1, fname(fn)+" invalidates the stale region", a.fnPos(fn), "", "the cached region whose epoch the store rejected is never invalidated: when the store reports only regions that start after it (right-derived split) the stale wide entry keeps answering lookups of the left half")
+			for _, ins := range core.FindCalls(fn, core.CallsMethodNamed("insertRegionToCache", "")) {
+				okk, w, _ := condMust(c, fn, nil, func(in ssa.Instruction) bool { return in == ssa.Instruction(ins) }, isCallNamed("invalidate"),
+					[]string{"T:(lookup(fld(regionIndexMu.regions,*) == nil)", "T:(*VerID)#0*", "T:(fld(RPCContext.Region,*) == *"})
+				a.check(okk, fname(fn)+" invalidates before installing the reported regions", ins, "", "the reported regions are installed although the stale region was neither invalidated nor re-reported with the same version: "+a.w(w))
+			}
+		}
+	}
+	{
+		a := rule(c, "C09.R9")
+		fn := a.fn(pkgLocate, "SortedRegions", "SearchByKey")
+		if fn != nil {
+			n := 0
+			for _, f := range fn.AnonFuncs {
+				for _, r := range returnsOf(f) {
+					cst, ok := asConst(r.Results[0])
+					if !ok || cst.Value == nil || cst.Value.String() != "true" {
+						continue
+					}
+					n++
+					g, w := guardedByAny(c, f, r, "T:call(bytes.Equal)#0*")
+					a.check(g, fname(f)+" keeps descending only past a region that starts at the end key", r, "", "the search continues to the left although the nearest region was examined: a wider stale entry further left is returned instead of a cache miss (overlapping the newer region): "+a.w(w))
+				}
+			}
+			a.checkAt(n >= 1, fname(fn)+" continue-descending return", a.fnPos(fn), "", "not found")
+		}
+	}
+}
+
+func c10Round3(c *core.Ctx) {
+	p := c.P
+	{
+		a := rule(c, "C10.R9")
+		isReadReq := a.fn(pkgLocate, "", "isReadReq")
+		getStartTS := a.fn(pkgRPC, "Request", "GetStartTS")
+		if isReadReq != nil && getStartTS != nil {
+			readSet := constsComparedWithParam(isReadReq, 0)
+			// … and every command validateReadTS itself reads a timestamp for
+			if validate := a.fn(pkgLocate, "RegionRequestSender", "validateReadTS"); validate != nil {
+				for v := range constsSwitchedOn(validate, "Request.Type") {
+					readSet[v] = true
+				}
+			}
+			have := constsSwitchedOn(getStartTS, "Request.Type")
+			for v := range readSet {
+				a.checkAt(have[v], fmt.Sprintf("%s has a case for read command CmdType(%d)", fname(getStartTS), v), a.fnPos(getStartTS), "", fmt.Sprintf("Request.GetStartTS returns 0 for read command CmdType(%d): validateReadTS validates 0 instead of the read's timestamp, so a read from the future is sent", v))
+			}
+		}
+	}
+	{
+		a := rule(c, "C10.R10")
+		n := 0
+		for _, fn := range p.Funcs {
+			pk := enclosing(fn).Pkg
+			if pk == nil || !(pk == p.Pkg(pkgLocate) || pk == p.Pkg("rawkv") || pk == p.Pkg(pkgSnap) || pk == p.Pkg(pkgTxn) || pk == p.Pkg(pkgLock) || pk == p.Pkg("tikv")) {
+				continue
+			}
+			if isProbe(c, fn) || strings.HasSuffix(p.Fset.Position(fn.Pos()).Filename, "_test.go") {
+				continue
+			}
+			for _, ci := range core.FindCalls(fn, func(cc *ssa.CallCommon) bool {
+				f := cc.StaticCallee()
+				return f != nil && f.Pkg == p.Pkg(pkgRetry) && strings.HasPrefix(f.Name(), "Backoff") && f.Signature.Results().Len() == 1
+			}) {
+				v, ok := ci.(ssa.Value)
+				if !ok {
+					// `go`/`defer` of a back-off: result unobservable
+					continue
+				}
+				n++
+				key := fname(fn) + " surfaces the back-off error"
+				refs := v.Referrers()
+				if refs == nil || len(*refs) == 0 {
+					if why, ok := c10BackoffIgnored[fname(fn)]; ok {
+						a.ok(key, ci, "frozen exception: "+why)
+					} else {
+						a.viol(key, ci, "the result of the back-off (budget exhausted / query killed) is dropped")
+					}
+					continue
+				}
+				pNil := core.PIsNil(func(x ssa.Value) bool { return core.Strip(x) == v })
+				ifs := ifsOn(fn, pNil)
+				if len(ifs) == 0 {
+					// not tested: must flow to a return
+					a.check(flowsToReturn(v), key, ci, "returned", "the back-off's error is neither tested nor returned")
+					continue
+				}
+				for _, ifi := range ifs {
+					b := succOn(ifi, pNil, false)
+					if b == nil {
+						continue
+					}
+					// on the error edge: no success exit and no further attempt
+					found, w, hit := reachFromBlock(fn, b, nil, nil, func(in ssa.Instruction) bool {
+						if r, ok := in.(*ssa.Return); ok {
+							if len(r.Results) == 0 {
+								return false
+							}
+							last := r.Results[len(r.Results)-1]
+							if !(isErrorType(last.Type()) && isNil(last)) {
+								return false
+							}
+							// `return false, nil` from a (retry bool, err error) function declines the retry: the caller
+							// hands the region error back instead of retrying — a permitted way for the send to end
+							for _, res := range r.Results[:len(r.Results)-1] {
+								if cst, ok := asConst(res); ok && cst.Value != nil && cst.Value.String() == "false" && res.Type().String() == "bool" {
+									return false
+								}
+							}
+							return true
+						}
+						return false
+					})
+					if found {
+						if why, ok := c10BackoffIgnored[fname(fn)]; ok {
+							a.ok(key, ci, "frozen exception: "+why)
+						} else {
+							a.viol(key, hit, "when the back-off fails (budget spent, context done, query killed) the function can still return success: the caller retries without sleeping and the send does not end with the budget error: "+a.w(w))
+						}
+					} else {
+						a.ok(key, ci, "")
+					}
+				}
+			}
+		}
+		a.checkAt(n >= 30, "back-off call sites checked", "-", fmt.Sprint(n), "call sites not found")
+	}
+	{
+		a := rule(c, "C10.R11")
+		n := 0
+		for _, fn := range p.Funcs {
+			pk := enclosing(fn).Pkg
+			if pk == nil || !(pk == p.Pkg(pkgLocate) || pk == p.Pkg(pkgRetry) || pk == p.Pkg(pkgClient)) {
+				continue
+			}
+			if strings.HasSuffix(p.Fset.Position(fn.Pos()).Filename, "_test.go") {
+				continue
+			}
+			n++
+			for _, l := range lockLeaks(fn) {
+				a.viol(fname(fn)+" releases "+l.Path+" on every path", l.Ret, "a path returns with the mutex still locked (no Unlock and no deferred Unlock on it): the next caller blocks forever: "+a.w(l.W))
+			}
+		}
+		a.checkAt(n >= 100, "functions checked for lock leaks", "-", fmt.Sprint(n), "")
+	}
+}
+
+// back-off results that are deliberately not propagated (each confirmed by reading)
+var c10BackoffIgnored = map[string]string{}
